@@ -290,6 +290,43 @@ def evaluate_modeswitch(case):
                 ref[ix] = ref0[ix] if mode == 'r+' and False else ref[ix]
             else:
                 classes.add(('modeswitch', first, str(ix)))
+    # a context that opens the data in another mode than the handle's own
+    for hmode, cmode in (('r', 'r+'), ('r+', 'r')):
+        for ix in idxs:
+            rmtree(path)
+            darr.asarray(path, ref0, accessmode='r+')
+            a = darr.Array(path, accessmode=hmode)
+            ref = ref0.copy()
+            nev += 1
+
+            def inctx():
+                with a.open_array(accessmode=cmode):
+                    a[ix] = 7
+            w, v = outcome_of(inctx)
+            if cmode == 'r+':
+                ref[ix] = 7
+            ok = (w == 'returns') == (cmode == 'r+') and same(darr.Array(path)[:], ref) and not snapshot.open_handles_on(path)
+            if not ok:
+                V.append(viol('index', 'assign-in-context', f'handle {hmode}, context {cmode}',
+                              'assignment inside a context does not follow the mode the context opened the data with',
+                              f'handle accessmode={hmode!r}, with a.open_array(accessmode={cmode!r}): a[{ix}] = 7 -> {w} {v!r:.60}'))
+            else:
+                classes.add(('ctxmode', hmode, cmode))
+    # a Python number that does not fit the element type: ndarray assignment refuses it
+    if np.dtype(dtype).kind in 'iu':
+        big = int(np.iinfo(np.dtype(dtype)).max) + 45
+        for ix in idxs:
+            rmtree(path)
+            a = darr.asarray(path, ref0, accessmode='r+')
+            ref = ref0.copy()
+            nev += 1
+            wr, vr = outcome_of(lambda: ref.__setitem__(ix, big))
+            w, v = outcome_of(lambda: a.__setitem__(ix, big))
+            if (w, type(v) if w == 'raises' else None) != (wr, type(vr) if wr == 'raises' else None) or not same(darr.Array(path)[:], ref):
+                V.append(viol('index', 'assign-out-of-range', np.dtype(dtype).name, 'differs from ndarray assignment',
+                              f'a[{ix}] = {big} on {np.dtype(dtype).name}: Darr {w} {v!r:.50}, ndarray {wr} {vr!r:.50}'))
+            else:
+                classes.add(('outofrange', str(ix)))
     rmtree(path)
     return V, classes, nev
 
